@@ -19,7 +19,8 @@ REQUIRED = ['C18.keyTransform_join', 'C18.keyTransform_too_deep', 'C18.cfgGet_eq
             'C18.del_keeps_parent', 'C18.set_missing_parent_errors', 'C18.toYamlSafe_idempotent',
             'C18.toYamlSafe_arrayFree', 'C18.toYamlSafe_yamlSafe', 'C18.toYamlSafe_numpy_scalar', 'C18.toYamlSafe_same_options',
             'C18.roundtrip_file', 'C18.roundtrip_text', 'C18.roundtrip_second_trip_identity',
-            'C18.numpy_scalar_not_loadable_before_fix',
+            'C18.numpy_scalar_not_loadable_before_fix', 'C18.alias_copy_denotes_same_options',
+            'C18.alias_top_level_edit_not_seen', 'C18.alias_nested_edit_is_seen', 'C18.get_func_shares_nested_dicts_current',
             'C18.roundtrip_get_func', 'C18.dump_leaves_config_untouched', 'C18.default_config_is_signature_defaults',
             'C18.default_config_agrees_with_option_model']
 TRUSTED = ['PyYAML (dump / dump_all / load / load_all with FullLoader) is an oracle: assumed to satisfy load(dump(t)) = t on '
@@ -32,7 +33,13 @@ TRUSTED = ['PyYAML (dump / dump_all / load / load_all with FullLoader) is an ora
            'calls is decided by the instance check only (bit-identical outputs, seeded numpy RNG, nprocesses=1)']
 ASSUMPTIONS = ['yaml_roundtrip_safe_tree: yaml.load(yaml.dump(t)) == t (types included) for option trees without ndarrays and '
                'numpy scalars; list(yaml.load_all(yaml.dump_all(ts))) == ts',
-               'no Python object is stored under two keys of one configuration (aliasing has no counterpart in the model)',
+               'no Python object is stored under two keys of one configuration (aliasing has no counterpart in the Tree model)',
+               'OUTSIDE the property (observed, stream aliasing; Lean C18.alias_*): get_func() returns functools.partial(func, '
+               '**self.store), so the partial (like SiftConfig(name, **cfg), dict(cfg), SiftConfig(name, cfg.store)) shares the '
+               'NESTED option dicts with the live configuration: a nested edit of the configuration made AFTER get_func() '
+               'changes what the partial does (cfg[\'imf_opts/sd_thresh\'] = 5.0 -> different IMFs), a one-level edit does not. '
+               'The property promises a callable that behaves like the original call, not one frozen against later edits of its '
+               'source configuration; the theorems represent the partial by the store at the time it was taken',
                'option values are Python or numpy scalars (np.float64/32/16, np.int64/32, np.uint8, np.bool_), None, lists/tuples '
                'without arrays (numpy scalars allowed at any depth inside them), numeric arrays, and dicts of these; a numpy '
                'scalar reads back as the Python scalar of the same value (np.float32(0.1) -> 0.10000000149011612)',
@@ -979,4 +986,74 @@ class Behaviour(Stream):
             yield dict(case, edits=case['edits'][:i] + case['edits'][i + 1:])
 
 
-STREAMS = [Edits(), KeyTransform(), YamlRoutes(), YamlCodec(), YamlForeign(), Defaults(), Behaviour()]
+# ------------------------------------------------------------------------------------------------
+# object sharing between a configuration and what was taken from it (observed, not claimed)
+
+class Aliasing(Stream):
+    """`f = cfg.get_func()` (or a `SiftConfig(name, **cfg)` / `dict(cfg)` copy), THEN an edit of `cfg`.
+
+    The property does not say whether the partial follows later edits; the Tree model represents it by the value of the
+    store when it was taken.  What is checked (instance): at the moment it is taken the partial binds exactly the
+    configuration's options, an edit never touches an independently created configuration, and the edited configuration
+    reads the new value.  What is only OBSERVED (tags `seen-by-*` in the evidence; Lean: C18.alias_nested_edit_is_seen,
+    C18.alias_top_level_edit_not_seen): one-level edits are not seen by the partial / copy, nested edits are.
+    """
+    name = 'aliasing'
+    exhaustive = True
+
+    def generate(self, rng, tier):
+        out = []
+        for v in VARIANTS:
+            for taker in ('get_func', 'kwargs_copy', 'dict_copy', 'store_copy'):
+                for key, val in (('max_imfs', 1), ('imf_opts/sd_thresh', 5.0), ('extrema_opts/loc_pad_opts/mode', 'edge'),
+                                 ('imf_opts', {'$': 'dict', 'v': [['sd_thresh', 5.0]]})):
+                    out.append({'variant': v, 'taker': taker, 'k': key, 'v': val})
+        return out
+
+    def impl(self, case):
+        S = sift_mod()
+        cfg = S.get_config(case['variant'])
+        bystander = S.get_config(case['variant'])
+        pristine = _cfg.wire(bystander.store)
+        if case['taker'] == 'get_func':
+            taken = cfg.get_func().keywords
+        elif case['taker'] == 'kwargs_copy':
+            taken = S.SiftConfig(case['variant'], **cfg).store
+        elif case['taker'] == 'dict_copy':
+            taken = dict(cfg)
+        else:
+            taken = S.SiftConfig(case['variant'], cfg.store).store
+        at_creation = _cfg.wire(dict(taken)) == _cfg.wire(cfg.store)
+        before = _cfg.wire(dict(taken))
+        cfg[case['k']] = _cfg.build(case['v'])
+        return {'at_creation_equal': at_creation, 'seen': _cfg.wire(dict(taken)) != before,
+                'taken_equals_config_after': _cfg.wire(dict(taken)) == _cfg.wire(cfg.store),
+                'readback': _cfg.safe_wire(cfg[case['k']]) == _cfg.wire(_cfg.build(case['v'])),
+                'bystander_unchanged': _cfg.wire(bystander.store) == pristine}
+
+    def holds(self, case, out):
+        if isinstance(out, ImplError):
+            return [Failure('aliasing:raises:' + out['error'], out['msg'])]
+        fs = []
+        if not out['at_creation_equal']:
+            fs.append(Failure('partial-or-copy-differs-from-config-when-taken:' + case['taker']))
+        if not out['readback']:
+            fs.append(Failure('edit-not-read-back'))
+        if not out['bystander_unchanged']:
+            fs.append(Failure('edit-leaks-into-another-config', 'an independently created configuration changed'))
+        return fs
+
+    def tags(self, case, out):
+        if isinstance(out, ImplError):
+            return ['impl-error']
+        depth = len(case['k'].split('/'))
+        return ['taker=' + case['taker'],
+                'edit-depth%d:%s-by-%s' % (depth, 'seen' if out['seen'] else 'not-seen', case['taker']),
+                'model-predicts:' + ('seen' if depth >= 2 else 'not-seen'),
+                'as-modelled' if out['seen'] == (depth >= 2) else 'NOT-as-modelled(no sharing)']
+
+    def nontrivial(self, case, out):
+        return not isinstance(out, ImplError) and len(case['k'].split('/')) >= 2
+
+
+STREAMS = [Edits(), KeyTransform(), YamlRoutes(), YamlCodec(), YamlForeign(), Defaults(), Behaviour(), Aliasing()]
